@@ -120,7 +120,13 @@ def run_unit(unit, ctx):
             json.dump(job, f)
         env = runner.worker_env({"PYTHONHASHSEED": hs})
         p = subprocess.run([sys.executable, "-m", "vf.c15child", path], capture_output=True, text=True,
-                           timeout=240, env=env, cwd=runner.REPO)
+                           timeout=270, env=env, cwd=runner.REPO)
+    except subprocess.TimeoutExpired:
+        # a child that does not finish (sympy.simplify straggler on a loaded machine) decides nothing: counted
+        # like a unit that hit the watchdog; the floors on children_reported still have to be met
+        R.stats.inc("children_timed_out")
+        R.inconclusive += 1
+        return R.out()
     finally:
         os.unlink(path)
     line = [ln for ln in p.stdout.splitlines() if ln.startswith("@@DIGEST ")]
